@@ -40,6 +40,10 @@ CHECKS['C11'] = (OTHER, 'symbolic execution of the real Panel.uvw/strain/stress 
     'Bounded symbolic verification for all amplitudes, evaluation points, flags, geometry: u,v,w, rotations, six strains (linear and von-Karman), six resultants for the NLterms requested, for every chunk count 1..3 (6) and point count 1..7 (13) incl. sizes not divisible by the chunk count; caller arrays unchanged.',
     'OpenMP scheduling not modelled (chunks sequential, disjointness checked); known finding F2 (quadratic terms) listed with a characterising obligation so that any other deviation is still reported.',
     'DESIGN.md section 4 C11')
+CHECKS['C19'] = (OTHER, 'symbolic execution of the real Panel.calc_kA/calc_cA (incl. make_skew_symmetric) over de-Cythonised fkAx/fkAy/fcA with exactly interpreted integral tables vs piston-theory bilinear-form oracle; Mach route with sqrt as constrained atom; axis-exchange relational obligation; z3 qfnra-nlsat; exact-rational replay',
+    'Bounded symbolic verification for all beta, gamma, aeromu, Mach>1, density, speed, geometry and the edge flags other than the restrained w flags on the flow edges: every entry of both triangles equals beta*int(w_A dw_B/dflow) - gamma*int(w_A w_B); cA = -aeromu*int(w_A w_B)*i; w-w positions only; Mach route = explicit route; flow-y = flow-x on the exchanged panel.',
+    'Bounds per evidence; w restrained on the flow edges (hypothesis of the statement); tables = exact integrals (C10); bay route claimed under C13.',
+    'DESIGN.md section 4 C19')
 NA = {
     'C15': 'eigenvalue monotonicity/convergence for pencils of size 48..768 is not a bounded first-order query any installed solver can decide; the algebraic ingredients (exact Hessians, exact tables, nestedness) are decided under C02-C04 and C10 (DESIGN.md section 5)',
 }
